@@ -226,7 +226,7 @@ func (r *cdpRunner) step() {
 		}
 		a := r.ownerOrOther(v.Owner)
 		amt := r.amt(v.AmountIn.BigInt())
-		r.tx("vault_deposit", a, &vaulttypes.MsgDepositRequest{From: a.Addr.String(), AppId: v.AppId, ExtendedPairVaultId: v.ExtendedPairVaultID, UserVaultId: v.Id, Amount: amt},
+		r.tx("vault_deposit", a, &vaulttypes.MsgDepositRequest{From: a.Addr.String(), AppId: v.AppId, ExtendedPairVaultId: r.prodFor(v), UserVaultId: v.Id, Amount: amt},
 			fmt.Sprintf("vault=%d amt=%s", v.Id, amt))
 	case x < 280: // withdraw
 		v, ok := pickVault()
@@ -238,7 +238,7 @@ func (r *cdpRunner) step() {
 		if r.rnd.Intn(10) == 0 {
 			amt = v.AmountIn
 		}
-		r.tx("vault_withdraw", a, &vaulttypes.MsgWithdrawRequest{From: a.Addr.String(), AppId: v.AppId, ExtendedPairVaultId: v.ExtendedPairVaultID, UserVaultId: v.Id, Amount: amt},
+		r.tx("vault_withdraw", a, &vaulttypes.MsgWithdrawRequest{From: a.Addr.String(), AppId: v.AppId, ExtendedPairVaultId: r.prodFor(v), UserVaultId: v.Id, Amount: amt},
 			fmt.Sprintf("vault=%d amt=%s", v.Id, amt))
 	case x < 360: // draw
 		v, ok := pickVault()
@@ -247,7 +247,7 @@ func (r *cdpRunner) step() {
 		}
 		a := r.ownerOrOther(v.Owner)
 		amt := r.amt(new(big.Int).Quo(v.AmountOut.BigInt(), big.NewInt(3)))
-		r.tx("vault_draw", a, &vaulttypes.MsgDrawRequest{From: a.Addr.String(), AppId: v.AppId, ExtendedPairVaultId: v.ExtendedPairVaultID, UserVaultId: v.Id, Amount: amt},
+		r.tx("vault_draw", a, &vaulttypes.MsgDrawRequest{From: a.Addr.String(), AppId: v.AppId, ExtendedPairVaultId: r.prodFor(v), UserVaultId: v.Id, Amount: amt},
 			fmt.Sprintf("vault=%d amt=%s", v.Id, amt))
 	case x < 440: // repay
 		v, ok := pickVault()
@@ -264,7 +264,7 @@ func (r *cdpRunner) step() {
 		case 2:
 			amt = v.AmountOut.Add(v.InterestAccumulated)
 		}
-		r.tx("vault_repay", a, &vaulttypes.MsgRepayRequest{From: a.Addr.String(), AppId: v.AppId, ExtendedPairVaultId: v.ExtendedPairVaultID, UserVaultId: v.Id, Amount: amt},
+		r.tx("vault_repay", a, &vaulttypes.MsgRepayRequest{From: a.Addr.String(), AppId: v.AppId, ExtendedPairVaultId: r.prodFor(v), UserVaultId: v.Id, Amount: amt},
 			fmt.Sprintf("vault=%d amt=%s", v.Id, amt))
 	case x < 490: // close (needs debt coins: top the owner up from other users' mints first)
 		v, ok := pickVault()
@@ -273,7 +273,7 @@ func (r *cdpRunner) step() {
 		}
 		a := r.ownerOrOther(v.Owner)
 		r.topUpDebt(a, u.prodByID[v.ExtendedPairVaultID].Out.Denom, v.AmountOut.Add(v.InterestAccumulated).Add(v.ClosingFeeAccumulated).AddRaw(1000))
-		r.tx("vault_close", a, &vaulttypes.MsgCloseRequest{From: a.Addr.String(), AppId: v.AppId, ExtendedPairVaultId: v.ExtendedPairVaultID, UserVaultId: v.Id},
+		r.tx("vault_close", a, &vaulttypes.MsgCloseRequest{From: a.Addr.String(), AppId: v.AppId, ExtendedPairVaultId: r.prodFor(v), UserVaultId: v.Id},
 			fmt.Sprintf("vault=%d", v.Id))
 	case x < 540: // deposit and draw
 		v, ok := pickVault()
@@ -282,7 +282,7 @@ func (r *cdpRunner) step() {
 		}
 		a := r.ownerOrOther(v.Owner)
 		amt := r.amt(new(big.Int).Quo(v.AmountIn.BigInt(), big.NewInt(2)))
-		r.tx("vault_deposit_draw", a, &vaulttypes.MsgDepositAndDrawRequest{From: a.Addr.String(), AppId: v.AppId, ExtendedPairVaultId: v.ExtendedPairVaultID, UserVaultId: v.Id, Amount: amt},
+		r.tx("vault_deposit_draw", a, &vaulttypes.MsgDepositAndDrawRequest{From: a.Addr.String(), AppId: v.AppId, ExtendedPairVaultId: r.prodFor(v), UserVaultId: v.Id, Amount: amt},
 			fmt.Sprintf("vault=%d amt=%s", v.Id, amt))
 	case x < 570: // interest calc (anyone)
 		v, ok := pickVault()
@@ -822,6 +822,25 @@ func containsStr(s, sub string) bool {
 		}
 	}
 	return false
+}
+
+// prodFor: the product id a vault message carries. Nearly always the vault's own; now and then (hostile, but a valid
+// message) the id of ANOTHER ordinary product of the same app.
+func (r *cdpRunner) prodFor(v vaulttypes.Vault) uint64 {
+	if r.rnd.Intn(25) != 0 {
+		return v.ExtendedPairVaultID
+	}
+	var others []uint64
+	for _, p := range r.u.products {
+		if p.App == v.AppId && p.ID != v.ExtendedPairVaultID && !p.P.IsStableMintVault {
+			others = append(others, p.ID)
+		}
+	}
+	if len(others) == 0 {
+		return v.ExtendedPairVaultID
+	}
+	r.rec.Count("vault_messages_naming_another_product_of_the_app", 1)
+	return others[r.rnd.Intn(len(others))]
 }
 
 // englishBid bids on a generation-2 English-style auction (surplus / debt).
